@@ -730,6 +730,30 @@ func run(c *mon.Ctx) {
 			}
 			a.DI = !a.DI
 			af.SetDiscontinuity(a.DI)
+			// the fixed-size fields that are present get new values as well
+			if a.PCR != nil {
+				v := q.Uint64() % ref.PCRMax
+				e := ref.EncPCR(v)
+				a.PCR = &e
+				if err := af.SetPCR(v); err != nil {
+					return "SetPCR on a present field failed: " + err.Error()
+				}
+			}
+			if a.OPCR != nil {
+				v := q.Uint64() % ref.PCRMax
+				e := ref.EncPCR(v)
+				a.OPCR = &e
+				if err := af.SetOPCR(v); err != nil {
+					return "SetOPCR on a present field failed: " + err.Error()
+				}
+			}
+			if a.Splice != nil {
+				v := q.Byte()
+				a.Splice = &v
+				if err := af.SetSpliceCountdown(v); err != nil {
+					return "SetSpliceCountdown on a present field failed: " + err.Error()
+				}
+			}
 			if want := next.Bytes(); p != packet.Packet(want) {
 				d := ref.FirstDiff(p[:], want[:])
 				return fmt.Sprintf("after setting private data / extension / discontinuity byte %d is %#02x, the ISO serialisation of the values set has %#02x", d, p[d], want[d])
